@@ -1,85 +1,85 @@
-(** C09 - correspondence and property oracle, evaluated with the binary64 instance. *)
-From Coq Require Import List NArith ZArith Bool Floats.
-From LinfaVerif Require Export Common.Num Common.NdSum Common.Run C09.Model.
+(** C09 - correspondence and property oracle.  One generic evaluator, instantiated with the
+    binary64 arithmetic (PrimFloat, against `KMeans<f64>`) and with the binary32 arithmetic
+    (SpecFloat at precision 24, against `KMeans<f32>`). *)
+From Coq Require Import List NArith ZArith Bool Floats SpecFloat.
+From LinfaVerif Require Export Common.Num Common.NdSum Common.Run Common.B32 C09.Model.
 Import ListNotations.
 
-Definition o64 := B64_ops.
+(** what the evaluator needs beyond NumOps *)
+Record xops (T : Type) := mkX {
+  x_o : NumOps T;
+  x_fmt : sample_fmt T;
+  x_eq : T -> T -> bool;      (* bit equality *)
+  x_fin : T -> bool;
+  x_nan : T;
+  x_slack : T                 (* relative rounding slack of the float-evaluated order oracles *)
+}.
+Arguments x_o {T}. Arguments x_fmt {T}. Arguments x_eq {T}. Arguments x_fin {T}.
+Arguments x_nan {T}. Arguments x_slack {T}.
 
-Record fitcase := {
+Definition sf_finite (x : spec_float) : bool :=
+  match x with S754_finite _ _ _ | S754_zero _ => true | _ => false end.
+
+Definition x64 : xops float :=
+  {| x_o := B64_ops; x_fmt := {| sf_mant := 52; sf_pred := PrimFloat.next_down |};
+     x_eq := f64_biteq; x_fin := fun v => sf_finite (Prim2SF v); x_nan := nan;
+     x_slack := 0x1p-40%float |}.
+
+(** `L2Dist::distance` at f32 is `F::from(a.l2_dist(&b).unwrap())`: ndarray-stats widens the f32
+    squared distance to f64 (exact), takes the f64 square root and linfa-nn rounds the result back
+    to f32.  All other operations are plain f32 operations. *)
+Definition sqrt32_via64 (v : spec_float) : spec_float := b32_of_b64 (SFsqrt 53 1024 v).
+
+Definition B32km_ops : NumOps spec_float :=
+  {| zero := zero B32_ops; one := one B32_ops;
+     add := add B32_ops; sub := sub B32_ops; mul := mul B32_ops; div := div B32_ops;
+     opp := opp B32_ops; abs := abs B32_ops; sqrt := sqrt32_via64;
+     ltb := ltb B32_ops; leb := leb B32_ops; eqb := eqb B32_ops; of_N := of_N B32_ops |}.
+
+Definition x32 : xops spec_float :=
+  {| x_o := B32km_ops; x_fmt := {| sf_mant := 23; sf_pred := SFpred p32 e32 |};
+     x_eq := b32_biteq; x_fin := sf_finite; x_nan := S754_nan;
+     x_slack := S754_finite false 8388608 (-37) (* 2^-14 *) |}.
+
+(** f32 values cross as IEEE bit patterns *)
+Definition b32 (z : Z) : spec_float := b32_of_bits z.
+
+Inductive initspec (T : Type) :=
+| InitGiven (inits : list (list (list T)))    (* Precomputed, or Random with replayed index samples *)
+| InitPlusPlus (runs : N) (words : list N)    (* KMeansPlusPlus: the generator's raw next_u64 words *)
+| InitHidden.                                 (* KMeansPara: not replayable, property oracle only *)
+Arguments InitGiven {T}. Arguments InitPlusPlus {T}. Arguments InitHidden {T}.
+
+Record fitcase (T : Type) := {
   fc_fuel : N;                       (* max_n_iterations *)
-  fc_tol : float;
-  fc_inits : list (list (list float));   (* one initial centroid matrix per run; [] = not observable *)
+  fc_tol : T;
+  fc_init : initspec T;
   fc_k : N;
   (* implementation outputs *)
-  fc_centroids : list (list float);
-  fc_counts : list float;
-  fc_inertia : float;
-  fc_query : list (list float);
+  fc_centroids : list (list T);
+  fc_counts : list T;
+  fc_inertia : T;
+  fc_query : list (list T);
   fc_predict : list N;
-  fc_transform : list float
+  fc_transform : list T
 }.
+Arguments fc_fuel {T}. Arguments fc_tol {T}. Arguments fc_init {T}. Arguments fc_k {T}.
+Arguments fc_centroids {T}. Arguments fc_counts {T}. Arguments fc_inertia {T}.
+Arguments fc_query {T}. Arguments fc_predict {T}. Arguments fc_transform {T}.
 
-Record case := {
+Record gcase (T : Type) := {
   c_id : N;
   c_metric : metric;
-  c_X : list (list float);
+  c_X : list (list T);
   c_bbox : bool;          (* initial centroids are taken from / inside the data: check the bounding box *)
   c_series : N;           (* 0 none; 1 = budgets grow (cost must not increase, L2 only);
                              2 = restarts grow (reported inertia must not increase) *)
-  c_fits : list fitcase
+  c_fits : list (fitcase T)
 }.
+Arguments c_id {T}. Arguments c_metric {T}. Arguments c_X {T}. Arguments c_bbox {T}.
+Arguments c_series {T}. Arguments c_fits {T}.
 
-Definition rows_eqb (a b : list (list float)) : bool := list_eqb (list_eqb f64_biteq) a b.
-Definition nat_N_eqb (a : nat) (b : N) : bool := N.eqb (N.of_nat a) b.
-
-(* ---- correspondence: model = implementation, bit for bit ---- *)
-Definition corr_fit (m : metric) (X : list (list float)) (fc : fitcase) : N :=
-  match fc_inits fc with
-  | [] => 0%N
-  | inits =>
-      match fit o64 m (fc_tol fc) (N.to_nat (fc_fuel fc)) (N.to_nat (fc_k fc)) inits X with
-      | None => 1%N
-      | Some f =>
-          (flag (rows_eqb (f_centroids f) (fc_centroids fc)) 1
-           + flag (list_eqb f64_biteq (f_counts f) (fc_counts fc)) 2
-           + flag (f64_biteq (f_inertia f) (fc_inertia fc)) 4)%N
-      end
-  end.
-
-Definition corr_query (m : metric) (fc : fitcase) : N :=
-  (flag (list_eqb N.eqb (map N.of_nat (predict o64 m (fc_centroids fc) (fc_query fc))) (fc_predict fc)) 8
-   + flag (list_eqb f64_biteq (transform o64 m (fc_centroids fc) (fc_query fc)) (fc_transform fc)) 16)%N.
-
-(* ---- property oracle on the implementation's output ---- *)
-Definition is_finite (x : float) : bool :=
-  match Prim2SF x with S754_finite _ _ _ | S754_zero _ => true | _ => false end.
-
-Definition col_minmax (rows : list (list float)) (j : nat) : float * float :=
-  fold_left (fun mm r => let v := nth j r nan in
-                         ((if PrimFloat.ltb v (fst mm) then v else fst mm),
-                          (if PrimFloat.ltb (snd mm) v then v else snd mm)))
-            rows (infinity, neg_infinity).
-
-Definition slack : float := 0x1p-40%float.
-
-Definition in_bbox (pts : list (list float)) (c : list float) : bool :=
-  forallb (fun j => let '(lo, hi) := col_minmax pts j in
-                    (* rounding slack: relative to the box width and to the magnitude of its ends
-                       (the float mean of equal values may differ from them in the last bits) *)
-                    let mag := if PrimFloat.ltb (PrimFloat.abs lo) (PrimFloat.abs hi) then PrimFloat.abs hi else PrimFloat.abs lo in
-                    let w := PrimFloat.add (PrimFloat.mul (PrimFloat.sub hi lo) slack) (PrimFloat.mul mag slack) in
-                    let v := nth j c nan in
-                    PrimFloat.leb (PrimFloat.sub lo w) v && PrimFloat.leb v (PrimFloat.add hi w))
-          (seq 0 (length c)).
-
-(* the returned index attains the minimal reduced distance and the returned distance is that one *)
-Definition argmin_ok (m : metric) (cs : list (list float)) (x : list float) (p : N) (d : float) : bool :=
-  match nth_error cs (N.to_nat p) with
-  | None => false
-  | Some c =>
-      let dp := rdist o64 m c x in
-      f64_biteq dp d && forallb (fun c' => PrimFloat.leb dp (rdist o64 m c' x)) cs
-  end.
+Inductive case := Case64 (c : gcase float) | Case32 (c : gcase spec_float).
 
 Fixpoint zip3 {A B C} (a : list A) (b : list B) (c : list C) : list (A * B * C) :=
   match a, b, c with
@@ -87,46 +87,123 @@ Fixpoint zip3 {A B C} (a : list A) (b : list B) (c : list C) : list (A * B * C) 
   | _, _, _ => []
   end.
 
-Definition oracle_fit (m : metric) (bbox : bool) (X : list (list float)) (fc : fitcase) : N :=
+Definition lor_list (l : list N) : N := fold_left N.lor l 0%N.
+
+Section Eval.
+Context {T : Type} (x : xops T).
+Let o := x_o x.
+
+Definition rows_eqb (a b : list (list T)) : bool := list_eqb (list_eqb (x_eq x)) a b.
+
+Definition inits_of (m : metric) (X : list (list T)) (fc : fitcase T) : option (list (list (list T))) :=
+  match fc_init fc with
+  | InitGiven l => Some l
+  | InitPlusPlus runs words =>
+      Some (plusplus_inits o (x_fmt x) m X (N.to_nat (fc_k fc)) (N.to_nat runs) words)
+  | InitHidden => None
+  end.
+
+(* ---- correspondence: model = implementation, bit for bit ---- *)
+Definition corr_fit (m : metric) (X : list (list T)) (fc : fitcase T) : N :=
+  match inits_of m X fc with
+  | None => 0%N
+  | Some inits =>
+      match fit o m (fc_tol fc) (N.to_nat (fc_fuel fc)) (N.to_nat (fc_k fc)) inits X with
+      | None => 1%N
+      | Some f =>
+          (flag (rows_eqb (f_centroids f) (fc_centroids fc)) 1
+           + flag (list_eqb (x_eq x) (f_counts f) (fc_counts fc)) 2
+           + flag (x_eq x (f_inertia f) (fc_inertia fc)) 4)%N
+      end
+  end.
+
+Definition corr_query (m : metric) (fc : fitcase T) : N :=
+  (flag (list_eqb N.eqb (map N.of_nat (predict o m (fc_centroids fc) (fc_query fc))) (fc_predict fc)) 8
+   + flag (list_eqb (x_eq x) (transform o m (fc_centroids fc) (fc_query fc)) (fc_transform fc)) 16)%N.
+
+(* ---- property oracle on the implementation's output ---- *)
+Definition col_minmax (rows : list (list T)) (j : nat) : T * T :=
+  match rows with
+  | [] => (x_nan x, x_nan x)
+  | r0 :: _ =>
+      fold_left (fun mm r => let v := nth j r (x_nan x) in
+                             ((if ltb o v (fst mm) then v else fst mm),
+                              (if ltb o (snd mm) v then v else snd mm)))
+                rows (nth j r0 (x_nan x), nth j r0 (x_nan x))
+  end.
+
+Definition in_bbox (pts : list (list T)) (c : list T) : bool :=
+  forallb (fun j => let '(lo, hi) := col_minmax pts j in
+                    (* rounding slack: relative to the box width and to the magnitude of its ends
+                       (the float mean of equal values may differ from them in the last bits) *)
+                    let mag := if ltb o (abs o lo) (abs o hi) then abs o hi else abs o lo in
+                    let w := add o (mul o (sub o hi lo) (x_slack x)) (mul o mag (x_slack x)) in
+                    let v := nth j c (x_nan x) in
+                    leb o (sub o lo w) v && leb o v (add o hi w))
+          (seq 0 (length c)).
+
+(* the returned index attains the minimal reduced distance and the returned distance is that one *)
+Definition argmin_ok (m : metric) (cs : list (list T)) (q : list T) (p : N) (d : T) : bool :=
+  match nth_error cs (N.to_nat p) with
+  | None => false
+  | Some c =>
+      let dp := rdist o m c q in
+      x_eq x dp d && forallb (fun c' => leb o dp (rdist o m c' q)) cs
+  end.
+
+Definition oracle_fit (m : metric) (bbox : bool) (X : list (list T)) (fc : fitcase T) : N :=
   let cs := fc_centroids fc in
-  let d := match X with [] => 0%nat | x :: _ => length x end in
+  let d := match X with [] => 0%nat | r :: _ => length r end in
   let k := N.to_nat (fc_k fc) in
   let n := length X in
-  let a := assign o64 m cs X in
-  let allpts := X ++ concat (fc_inits fc) in
+  let a := assign o m cs X in
+  let allpts := X ++ match fc_init fc with InitGiven l => concat l | _ => [] end in
   (flag (Nat.eqb (length cs) k && forallb (fun c => Nat.eqb (length c) d) cs) 1
-   + flag (forallb (forallb is_finite) cs) 2
+   + flag (forallb (forallb (x_fin x)) cs) 2
    + flag (negb bbox || forallb (in_bbox allpts) cs) 4
-   + flag (list_eqb f64_biteq (count_members o64 k (map fst a)) (fc_counts fc)) 8
-   + flag (f64_biteq (seq_sum o64 (fc_counts fc)) (of_N o64 (N.of_nat n))) 16
-   + flag (f64_biteq (PrimFloat.div (usum o64 (map snd a)) (of_N o64 (N.of_nat n))) (fc_inertia fc)) 32
+   + flag (list_eqb (x_eq x) (count_members o k (map fst a)) (fc_counts fc)) 8
+   + flag (x_eq x (seq_sum o (fc_counts fc)) (of_N o (N.of_nat n))) 16
+   + flag (x_eq x (div o (usum o (map snd a)) (of_N o (N.of_nat n))) (fc_inertia fc)) 32
    + flag (Nat.eqb (length (fc_predict fc)) (length (fc_query fc))
            && Nat.eqb (length (fc_transform fc)) (length (fc_query fc))
-           && forallb (fun t => let '(x, p, dd) := t in argmin_ok m cs x p dd)
+           && forallb (fun t => let '(q, p, dd) := t in argmin_ok m cs q p dd)
                       (zip3 (fc_query fc) (fc_predict fc) (fc_transform fc))) 64)%N.
 
-Definition cost_of (m : metric) (X : list (list float)) (fc : fitcase) : float :=
-  cost o64 m (fc_centroids fc) X.
+Definition cost_of (m : metric) (X : list (list T)) (fc : fitcase T) : T :=
+  cost o m (fc_centroids fc) X.
 
-Fixpoint nonincreasing (slk : float) (xs : list float) : bool :=
+(* rounding slack of the float-evaluated cost comparison: relative to the cost itself and to the
+   squared magnitude of the data (a centroid that is off by a few ulps of its coordinates moves the
+   cost by about that much; e.g. the float mean of seven equal values need not be that value) *)
+Fixpoint nonincreasing (slk ref : T) (xs : list T) : bool :=
   match xs with
   | a :: (b :: _) as r =>
-      PrimFloat.leb b (PrimFloat.add a (PrimFloat.mul (PrimFloat.abs a) slk)) && nonincreasing slk r
+      leb o b (add o a (mul o (add o (abs o a) ref) slk)) && nonincreasing slk ref r
   | _ => true
   end.
 
-Definition oracle_series (c : case) : N :=
+Definition sq_magnitude (X : list (list T)) : T :=
+  seq_sum o (map (fun r => seq_sum o (map (fun v => mul o v v) r)) X).
+
+Definition oracle_series (c : gcase T) : N :=
   match c_series c with
-  | 1%N => flag (nonincreasing slack (map (cost_of (c_metric c) (c_X c)) (c_fits c))) 256
-  | 2%N => flag (nonincreasing 0%float (map fc_inertia (c_fits c))) 512
+  | 1%N => flag (nonincreasing (x_slack x) (sq_magnitude (c_X c))
+                               (map (cost_of (c_metric c) (c_X c)) (c_fits c))) 256
+  | 2%N => flag (nonincreasing (zero o) (zero o) (map fc_inertia (c_fits c))) 512
   | _ => 0%N
   end.
 
-Definition lor_list (l : list N) : N := fold_left N.lor l 0%N.
-
-Definition run_case (c : case) : verdict :=
+Definition run_gcase (c : gcase T) : verdict :=
   (c_id c,
    (lor_list (map (fun fc => N.lor (corr_fit (c_metric c) (c_X c) fc) (corr_query (c_metric c) fc)) (c_fits c)),
     N.lor (lor_list (map (oracle_fit (c_metric c) (c_bbox c) (c_X c)) (c_fits c))) (oracle_series c))).
+
+End Eval.
+
+Definition run_case (c : case) : verdict :=
+  match c with
+  | Case64 g => run_gcase x64 g
+  | Case32 g => run_gcase x32 g
+  end.
 
 Definition run_cases (cs : list case) : list N := report (map run_case cs).
